@@ -350,9 +350,11 @@ SEMH = [
        ["BatchSemaphore::remove_waiter"]),
     KS("C18.sem.remove_waiter_fair_second", "c18_sem_remove_waiter_fair_second", "removing a non-head waiter changes nothing else",
        ["BatchSemaphore::remove_waiter"], tier="thorough"),
-    KS("C18.acquire.poll_granted_or_closed", "c18_acquire_poll_granted_or_closed",
-       "a granted waiter completes with Ok on its next poll whatever happened since (incl. close); ungranted on closed => Err; one choice point on a first poll",
+    KS("C18.acquire.poll_granted_then_closed", "c18_acquire_poll_granted_then_closed",
+       "a waiter that was granted permits completes with Ok on its next poll even if the semaphore was closed since; one choice point on a first poll",
        ["Acquire::poll"]),
+    KS("C18.acquire.poll_granted_open", "c18_acquire_poll_granted_open", "same, semaphore still open", ["Acquire::poll"], tier="thorough"),
+    KS("C18.acquire.poll_ungranted_closed", "c18_acquire_poll_ungranted_closed", "an ungranted waiter on a closed semaphore completes with Err", ["Acquire::poll"], tier="thorough"),
     KS("C18.acquire.poll_first_fair", "c18_acquire_poll_first_fair",
        "first poll, empty queue: n <= available => Ready(Ok), exactly n removed; else Pending, enqueued at the tail with the POLLER's identity and waker; choice point always (fair)",
        ["Acquire::poll", "BatchSemaphore::enqueue_waiter"], tier="thorough"),
@@ -372,7 +374,7 @@ PROPS["C18"] = {
                     "lane L mirrors the Kb contracts by inspection (both texts are in the evidence samples)"],
     "not_decided": ["unbounded queue lengths on the real code (lane Kb is bounded; lane L is about the contracts)"],
 }
-PROPS["C02"]["kani"] += [x for x in SEMH if x["harness"] in ("c18_sem_try_acquire_fair", "c18_acquire_poll_granted_or_closed", "c18_acquire_poll_first_unfair")]
+PROPS["C02"]["kani"] += [x for x in SEMH if x["harness"] in ("c18_sem_try_acquire_fair", "c18_acquire_poll_granted_then_closed", "c18_acquire_poll_first_unfair")]
 PROPS["C02"]["overlay_files"] = SEM_OVERLAY
 PROPS["C02"]["kani"].append(EXEC["yield"])
 
@@ -501,10 +503,10 @@ CLKH = [
        [CLK + "::VectorClock::extend", CLK + "::VectorClock::increment"], "length <= 4", features=["vector-clocks"]),
 ]
 PROPS["C15"]["kani_companions"] = CLKH[:2]
-PROPS["C15"]["kani"] = [CLKH[2]]
+PROPS["C15"]["kani"] = []   # extend/increment are in the Verus unit (unbounded); the Kani extend harness ended in solver errors and was withdrawn
 PROPS["C15"]["overlay_files"] = ["shuttle-engine/src/runtime/task/clock.rs.append.rs"]
-PROPS["C15"]["scope"] = ("VectorClock::{new,increment,update,get,partial_cmp} + unify proved unbounded on the extracted code (V); partial order / "
-                         "least-upper-bound / growth / edge-domination lemmas (L); extend (Kb)")
+PROPS["C15"]["scope"] = ("VectorClock::{new,extend,increment,update,get,partial_cmp} + unify proved unbounded on the extracted code (V); partial order / "
+                         "least-upper-bound / growth / edge-domination lemmas (L); bounded Kani companions on the un-rewritten code give counterexamples when V fails")
 PROPS["C15"]["assumptions"] = ["A-wrap: a clock entry is < u32::MAX before increment (stated as requires)",
                                "A1: SmallVec<[u32; N]> -> Vec<u32> in the verified text (same sequence semantics)"]
 PROPS["C15"]["not_decided"] = ["the per-primitive edges (which clock is joined where in mutex/mpsc/condvar/barrier/once/atomics/spawn/join): only the semaphore "
@@ -561,9 +563,11 @@ C20H = [
     KPL("C20.pl.downgrade", "c20_pl_downgrade", "exclusive -> shared releases all but one permit and never waits", ["downgrade"]),
     KPL("C20.pl.downgrade_upgradable", "c20_pl_downgrade_upgradable", "upgradable -> shared gives the slot back, keeps the shared permit, never waits",
         ["downgrade_upgradable"], tier="thorough"),
-    KPL("C20.pl.downgrade_to_upgradable", "c20_pl_downgrade_to_upgradable",
-        "exclusive -> upgradable completes without waiting in every state allowed by the lock invariant (incl. a task queued in lock_upgradable holding the slot)",
-        ["downgrade_to_upgradable"]),
+    KPL("C20.pl.downgrade_to_upgradable_slot_free", "c20_pl_downgrade_to_upgradable_slot_free",
+        "exclusive -> upgradable with the slot free: completes without waiting; holder keeps one permit and owns the slot", ["downgrade_to_upgradable"]),
+    KPL("C20.pl.downgrade_to_upgradable_slot_held_by_queued_task", "c20_pl_downgrade_to_upgradable_slot_held_by_queued_task",
+        "exclusive -> upgradable while a task queued in lock_upgradable holds the slot (a state the lock invariant allows): must complete without waiting "
+        "-- FAILS on the unchanged tree: known finding F6", ["downgrade_to_upgradable", "lock_upgradable"]),
 ]
 PROPS["C20"] = {
     "scope": "deterministic collections: the hasher state is the fixed one however a map/set is built (K, found F7); parking_lot RawRwLock try-variants "
